@@ -63,7 +63,8 @@ CHECKS: dict[str, tuple[str, str, str, str]] = {
         " ^(.*?)TAG:[ \\t]+(.*?)END; no string of the SPDX-expression language ends in a terminator or in a mirrored"
         " line prefix (automata intersection, witness reported); the yielded value passes only through strip() and the"
         " guarded frame slice; the 4 KiB / snippet / seek(0) table, parse-error => empty info, replace-decoding."
-        " Free-text holders ending in a terminator and regex backtracking details are not decided.",
+        " A terminator followed by trailing blanks is still stripped; the reader is given text only (not the comment syntax),"
+        " so a free-text value ending in any terminator loses it (R9, recorded finding). Regex backtracking details are not decided.",
         "Trusted: ast, re._parser, sa/fold.py, sa/relang.py, sa/tab.py. The order hazard in _END_PATTERN is decided under C14.",
         "DESIGN.md §3 C02",
     ),
@@ -106,7 +107,7 @@ CHECKS: dict[str, tuple[str, str, str, str]] = {
         " Project.license_map into it and compares with `bad iff neither SPDX nor LicenseRef-` over all cells, the"
         " used/unused comprehensions as boolean formulas, the LICENSES/** scan table (skip, no-extension, stem fallback,"
         " duplicate, register), the LicenseRef- language (DFA equivalence, identifiers of any length), and absence of"
-        " case folding on the lint path. license_expression's license_keys (library) is not decided. LICENSES/ entries: bad iff not in the licence map, deprecated iff the map marks it - independent of any other attribute of the entry. Inherits C02, C03, C04 (which identifiers are used at all).",
+        " case folding on the lint path. license_expression's license_keys (library) is not decided. LICENSES/ entries: bad iff not in the licence map, deprecated iff the map marks it - independent of any other attribute of the entry. The whole file name is looked up before the part in front of the last dot (Python-2.0.1 is an identifier without extension, not Python-2.0 with extension .1). Inherits C02, C03, C04 (which identifiers are used at all).",
         "Trusted: ast, sa/tab.py, sa/relang.py, sa/fold.py. Deprecated/bad classification of LICENSES/ entries is in C01-R3.",
         "DESIGN.md §3 C06",
     ),
@@ -136,7 +137,7 @@ CHECKS: dict[str, tuple[str, str, str, str]] = {
     "C19": (
         "decision/effect tabulation with exceptional edges (typestate: refusal dominates writes; fetch before open)",
         "Decides on every path of put_license_in_file that each file-system effect on the destination is dominated by"
-        " the exists() refusal, that the network fetch completes before the file is opened (a failed transfer leaves"
+        " the refusal of an existing entry - exists() or a (dangling) symbolic link -, that the network fetch completes before the file is opened (a failed transfer leaves"
         " nothing), that the LicenseRef branch reaches no network call and that download_license is the only network"
         " caller; and for the command: usage errors first, '+' stripped before use, --all = report.missing_licenses,"
         " every failure handler sets a non-zero code and stays in the loop, exit with the accumulated code; and the"
@@ -163,7 +164,7 @@ CHECKS: dict[str, tuple[str, str, str, str]] = {
         " keyword arguments of template.render ⊆ variables of the default template, with equal tag literals on both"
         " sides; unchanged forwarding of every option along the five-function annotate chain (rename table); the"
         " .license-target and comment-style decision tables; sanity of the folded style tables (29 classes, 261+64"
-        " map entries). That rendering plus commenting round-trips every value is run-time behaviour and not decided. Every jinja2 Environment is constructed without autoescape / finalize / extensions (values are written verbatim). The multi-line writer refuses every text containing the style's terminator and no style overrides the writer methods or their helper predicates. Inherits C02 (tag reading) and C20 (notice building).",
+        " map entries). That rendering plus commenting round-trips every value is run-time behaviour and not decided. Every jinja2 Environment is constructed without autoescape / finalize / extensions (values are written verbatim). The multi-line writer refuses every text containing the style's terminator and no style overrides the writer methods or their helper predicates. The header finder's predicate sees one comment at a time, never the ignore markers of the whole file (R10, recorded finding); a header redirected to a new .license sibling hides what the file itself declares (R11, recorded finding, shared with C09). Inherits C02 (tag reading) and C20 (notice building).",
         "Trusted: ast, sa/tab.py, sa/fold.py, Jinja2's parser (no rendering).",
         "DESIGN.md §3 C07",
     ),
@@ -173,7 +174,7 @@ CHECKS: dict[str, tuple[str, str, str, str]] = {
         " (newline=''), line endings are detected before normalisation and the same variable is the newline= of the"
         " write to the same file; that shebang extraction precedes header creation and feeds `before`; that the three"
         " text sections are chained slices of one string; that a BOM is split off before processing and written back"
-        " first. Byte-for-byte preservation of arbitrary bodies is run-time string behaviour and not decided. Every comment_at_first_character returns a prefix of its argument (its length is used as the cut offset). A first-line declaration is split off a block only when nothing but blanks precedes that block (decision table of find_and_replace_header).",
+        " first. Byte-for-byte preservation of arbitrary bodies is run-time string behaviour and not decided. Every comment_at_first_character returns a prefix of its argument (its length is used as the cut offset). A first-line declaration is split off a block only when nothing but blanks precedes that block (decision table of find_and_replace_header). The line-ending detector is read as a model (presence priority list or frequency count with CRLF subtracted, over the whole text): presence alone cannot tell an LF file with a stray CR from a CR file.",
         "Trusted: ast, sa/tab.py.",
         "DESIGN.md §3 C08",
     ),
@@ -184,7 +185,7 @@ CHECKS: dict[str, tuple[str, str, str, str]] = {
         " header raises instead of being dropped, that ReuseInfo.union covers every set field, copy preserves"
         " unspecified fields, the helper predicates equal their formulas, every .copy() call names only dataclass"
         " fields, --skip-existing has no effect, and the post-render check (shared with C07). Monotonicity over"
-        " arbitrary histories of header shapes is not decided. Template environments write re-rendered information verbatim (shared with C07). Inherits C07 and its layers.",
+        " arbitrary histories of header shapes is not decided. Template environments write re-rendered information verbatim (shared with C07). Redirecting the header to a new .license sibling must carry over what the file declares itself (R9, recorded finding). Inherits C07 and its layers.",
         "Trusted: ast, sa/tab.py.",
         "DESIGN.md §3 C09",
     ),
@@ -220,7 +221,7 @@ CHECKS: dict[str, tuple[str, str, str, str]] = {
         " the three template arguments are sorted (so identical arguments give identical headers under any hash seed);"
         " that for none of the 29 folded comment styles the multi-line opener starts with the single-line marker while"
         " single-line detection runs first (the tool must find the header it wrote); that the comment writer and the"
-        " block finder agree; and the no-separator cell of place_header. Byte identity for all bodies is not decided. The year range annotate writes is already in the merger's canonical form (get_year table shared with C20). place_header receives bool(header) as the existing-header flag (shared with C08). Inherits C07 and C08 and their layers.",
+        " block finder agree; and the no-separator cell of place_header. Byte identity for all bodies is not decided. The year range annotate writes is already in the merger's canonical form (get_year table shared with C20). place_header receives bool(header) as the existing-header flag (shared with C08). Requested --copyright / --contributor texts pass a blank-stripping normalisation on every flow into ReuseInfo (the form the reader returns), else the second run adds the line again. Inherits C07 and C08 and their layers.",
         "Trusted: ast, mypy types, sa/taint.py, sa/fold.py, sa/tab.py, canonisers of table T3.",
         "DESIGN.md §3 C10",
     ),
